@@ -39,7 +39,8 @@ def run_table(ctx, table, config="std", tier=None, per=8192, spec_table=None, ex
     """harness table -> chunk files -> TLC judge.  Returns list of (prop, clause, row)."""
     tier = tier or ctx.tier
     d = ctx.work.fresh("table_%s_%s_" % (table, config), "d")
-    out, dt = harness(config, ["table", table, d, tier, str(ctx.seed), str(per)], timeout=7200)
+    mode = ["ints"] if table == "ints" else ["table", table]
+    out, dt = harness(config, mode + [d, tier, str(ctx.seed), str(per)], timeout=7200)
     info = json.loads(out.strip().splitlines()[-1])
     chunks, nrows = info["chunks"], info["rows"]
     if nrows == 0:
@@ -92,9 +93,14 @@ def run_table(ctx, table, config="std", tier=None, per=8192, spec_table=None, ex
 
 def table_canary(ctx, d, table, mutate, spec_table=None):
     """Binding demonstration for tables: one cell of one row is corrupted; TLC must reject it."""
-    last = max(int(f[6:-7]) for f in os.listdir(d) if f.startswith("chunk_"))
-    rows = read_ndjson(os.path.join(d, "chunk_%d.ndjson" % last))
-    idx = mutate(rows, ctx.rng)
+    ks = sorted(int(f[6:-7]) for f in os.listdir(d) if f.startswith("chunk_"))
+    order = [ks[-1]] + ctx.rng.sample(ks, len(ks))
+    idx = None
+    for kk in order:
+        rows = read_ndjson(os.path.join(d, "chunk_%d.ndjson" % kk))
+        idx = mutate(rows, ctx.rng)
+        if idx is not None:
+            break
     if idx is None:
         raise ToolError("table canary: no suitable row")
     cd = ctx.work.fresh("canary_table_", "d")
@@ -186,6 +192,61 @@ def _set_flag(rows, rng):
     return i
 
 
+# ----------------------------------------------------------------------------- C04 / C05
+
+def _corrupt_ints(rows, rng):
+    cand = [i for i, r in enumerate(rows) if r[0] in (0, 2) and r[6] == 1]
+    if not cand:
+        cand = [i for i, r in enumerate(rows) if r[0] == 4]
+        if not cand:
+            return None
+        i = rng.choice(cand)
+        rows[i][6] += 1
+        return i
+    i = rng.choice(cand)
+    rows[i][7] = rows[i][7] + 20000
+    return i
+
+
+def c04(ctx):
+    import gen
+    run_mc_pure(ctx, "MC_Ints", {}, ["Inv"], tag="MC_Ints")
+    d, f, n = run_table(ctx, "ints", config="std", per=20000)
+    table_canary(ctx, d, "ints", _corrupt_ints)
+    shutil.rmtree(d, ignore_errors=True)
+    d, f, n = run_table(ctx, "ints", config="nostd", per=20000)
+    shutil.rmtree(d, ignore_errors=True)
+    # "values returned by any other API": data bytes / fields of messages from factories, encoders, scanners
+    d, f, n = run_table(ctx, "short", tier="quick")
+    shutil.rmtree(d, ignore_errors=True)
+    rows = gen.random_plain(ctx.rng, "cc14", ctx.q(8000, 60000)) + gen.random_plain(ctx.rng, "pn", ctx.q(8000, 60000), first_id=2) \
+        + gen.random_poll(ctx.rng, ctx.q(8000, 60000), first_id=3) + gen.roundtrip_cc14(ctx.rng, ctx.q(500, 5000), first_id=4) \
+        + gen.roundtrip_pn(ctx.rng, ctx.q(500, 5000), first_id=5)
+    scanners.run_script(ctx, rows, "ranges-of-scanner-and-encoder-outputs")
+    events = ctx.events
+    finish_pure(ctx, "rows: every implemented conversion into each of the six types - exhaustive for 8/16-bit and newtype "
+                     "sources, boundaries + powers of two +-1 + seeded random for 32/64/128-bit and pointer-sized sources; "
+                     "`new` for every value of the representation type; parsing of all strings over {0-9,+,-,space,a} up to "
+                     "length 3 (thorough: 4) plus boundary / leading-zero / non-ASCII numerals; MIN/MAX/Default - produced by "
+                     "TWO builds of the harness (default features; default-features = false) and judged by TLC against "
+                     "InRange / TryOk / ParseOk; plus the range conjunct on accessor vectors of short messages and on every "
+                     "report of the scanners and encoders in random traces.  distinct_nontrivial = rows judged.")
+    ctx.events = events
+
+
+def c05(ctx):
+    run_mc_pure(ctx, "MC_Ints", {}, ["Inv"], tag="MC_Ints")
+    d, f, n = run_table(ctx, "ints", config="std", per=20000)
+    table_canary(ctx, d, "ints", _corrupt_ints)
+    shutil.rmtree(d, ignore_errors=True)
+    d, f, n = run_table(ctx, "ints", config="nostd", per=20000)
+    finish_pure(ctx, "rows: value columns of every into-conversion (exhaustive for 8/16-bit and newtype sources, swept for wider "
+                     "ones), every out-conversion of every value of each type to 12 primitives and the wider newtypes, Display "
+                     "into a stack buffer for every value and parse of that text, parse of the string set of C04, Ord/Eq/min/max "
+                     "on all pairs (U4, Channel), 128x128 (thorough) or boundary pairs, MIN/MAX/Default; judged by TLC against "
+                     "the operators of MidiInts.tla.  distinct_nontrivial = rows judged.")
+
+
 def replay(ctx, path):
     """Re-judges the rows stored in a table replay file against the CURRENT code: the inputs of
     each stored row are re-run through the harness."""
@@ -205,4 +266,4 @@ def replay(ctx, path):
     return 1 if bad else 0
 
 
-PROPS = {"C01": c01, "C02": c02, "C03": c03}
+PROPS = {"C01": c01, "C02": c02, "C03": c03, "C04": c04, "C05": c05}
